@@ -24,6 +24,7 @@ EXPLANATION = (
     "inside the cutoff (R01.4), and/or fold shapes (R01.5), >= thresholds of minimum/minscore agreeing at both "
     "decision points (R01.6), anchoring requires verdict and non-empty reasons (R01.7), and neighbour scans of "
     "conditions that can hold for a gene without hits range over all genes in range (R01.8)."
+    " R01.11: local_only (set by cds(...)) is handed on, or forced to True, at every evaluation step - never left to a callee's default."
 )
 UNDECIDED = [
     "truth table of arbitrary condition nestings against the documented formula",
